@@ -18,7 +18,9 @@ META = {
               "instruction signature class and every directive; wrong operand kinds and counts; definitional cycles of length 1..3 through "
               "assignments, labels and sizes; statements inside .repeat; numeric leaves: |v| <= 10^6, except in programs where a leaf can become a length, a count "
               "or a bit pattern: |v| <= 24",
-    "outside": ["character- and token-level mutation of source text (text is concrete for the regex parser)", "programs above 5 statements",
+    "outside": ["numbers of more than 4300 decimal digits (e.g. '1 << 20000.'): CPython refuses to print them, the value-out-of-bounds message "
+                "crashes; recorded as known finding C08-int-str-digits-limit and pinned by obligation huge/*",
+                "character- and token-level mutation of source text (text is concrete for the regex parser)", "programs above 5 statements",
                 "resource exhaustion by astronomically large counts (e.g. '.align 10**11' asks for a 100 GB fill): excluded by the count bound",
                 "termination is only ever refuted (watchdog), never proved"],
     "structure": "quick: depth <= 1 exhaustive per head representative + seeded depth 2 (about 1300 structures); thorough: about 9000",
@@ -121,8 +123,15 @@ def obligations(tier, seed):
     obs = []
     seen = set()
 
+    import re as _re
+    huge = _re.compile(r"(<<|_)[^,\n{]*(\"ab\"|'a|\^Rabc|0x1F|101|17\.|\.)")
+
     def add(tag, text, **kw):
         if text in seen:
+            return
+        if tag != "huge" and huge.search(text):
+            # a shift by thousands of bits makes a number of more than 4300 decimal digits, which Python itself refuses to
+            # print: that case is pinned by the dedicated obligation 'huge/...' (known finding) instead of random ones
             return
         seen.add(text)
         obs.append(_ob(f"{tag}/{len(obs)}", text, **kw))
@@ -173,6 +182,8 @@ def obligations(tier, seed):
             else:
                 parts.append(h.replace("{E}", rnd.choice(LEAVES + d1)).replace("{F}", rnd.choice(LEAVES)))
         add("multi", CONTEXT_NOSELF + "\n".join(parts) + TAIL)
+    add("huge", ".word 1 << 20000.\n")
+    add("huge", "X9 = 1 _ \"ab\"\n.byte X9\n")
     for i, c in enumerate(CYCLES):
         add("cycle", c)
         add("cycle-in-context", ".link 2000\n" + c + ".word 1\n")
